@@ -8,11 +8,10 @@ package main
 import (
 	"fmt"
 	"os"
-	"strings"
-	"time"
 
 	"verif/lib/dbh"
 	"verif/lib/kvseq"
+	"verif/lib/schedmc"
 	"verif/lib/seqmc"
 	"verif/lib/vr"
 )
@@ -39,12 +38,12 @@ func main() {
 	var cfgs []config
 	if r.Quick() {
 		cfgs = []config{
-			// cheapest first: what a configuration leaves of its budget share goes to the later ones
-			// two prefix-related keys: tables with disjoint and overlapping key ranges in L0
-			{"twokey-macro", small, []string{"set:d:a:s", "set:d:ab:s", "del:d:ab"}, 4, 4, 8, false, false, true},
 			{"deep-macro", small, core[:2], 3, 7, 10, false, false, true},
 			{"wide-art", dbh.Config{Engine: "art", Buckets: 2, VlogFileSize: 120}, wide, 2, 3, 5, false, true, false},
 			{"core-skiplist", small, core, 3, 4, 7, true, true, false},
+			// two prefix-related keys: tables with disjoint and overlapping key ranges in L0. Last and
+			// with a double weight: it gets at least 2/5 of the budget plus whatever the others leave.
+			{"twokey-macro", small, []string{"set:d:a:s", "set:d:ab:s", "del:d:ab"}, 4, 4, 8, false, false, true},
 		}
 	} else {
 		cfgs = []config{
@@ -76,48 +75,26 @@ func main() {
 	}
 	base := r.Scratch()
 	total := r.RunSharded(vr.Workers(), func(sh vr.ShardInfo, p *vr.Partial) {
-		p.Add("workers", 1)
+		// every configuration gets an equal share of what is left of the budget; configurations
+		// that hit their share are taken up again with what the others left unused
+		var items []schedmc.Item
 		for ci, c := range cfgs {
 			params := &kvseq.Params{Cfg: c.Cfg, ClientOps: c.Ops, MaxClient: c.MaxClient, MaxMaint: c.MaxMaint,
 				WithGC: c.GC, WithReopen: c.Reopen, Macro: c.Macro, Dedup: true, RichSig: true, BaseDir: fmt.Sprintf("%s/s%d-c%d", base, sh.Index, ci)}
-			sub := vr.NewPartial()
-			// every configuration gets its share of what is left of the budget; the two-key
-			// configuration (the only one with several tables per level) counts double
-			weight := func(c config) int64 {
-				if strings.HasPrefix(c.Name, "twokey") {
-					return 2
+			items = append(items, schedmc.Item{Name: c.Name, Run: func(expired func() bool, sub *vr.Partial) {
+				seqmc.Explore(seqmc.Config{New: func() seqmc.Instance { return kvseq.New(params) }, MaxDepth: c.Depth,
+					Shard: sh, Expired: expired, Iterative: true}, sub)
+				// completion bookkeeping (the parent needs "every worker finished its share of it")
+				sub.Max(fmt.Sprintf("max_depth_done_%02d_%s", sh.Index, c.Name), sub.Counters["max_completed_depth"])
+				delete(sub.Counters, "max_completed_depth")
+				// tag violations with the configuration so replays know which one to use
+				for i := range sub.Violations {
+					sub.Violations[i].Replay = fmt.Sprintf(`{"Config":%q,"Path":%s}`, c.Name, sub.Violations[i].Replay)
+					sub.Violations[i].Desc = "config=" + c.Name + " " + sub.Violations[i].Desc
 				}
-				return 1
-			}
-			var rest int64
-			for _, o := range cfgs[ci:] {
-				rest += weight(o)
-			}
-			share := time.Now().Add(time.Duration(int64(r.Remaining()) * weight(c) / rest))
-			expired := func() bool {
-				if time.Now().After(share) {
-					sub.TimedOut = true
-					return true
-				}
-				return r.Expired()
-			}
-			seqmc.Explore(seqmc.Config{New: func() seqmc.Instance { return kvseq.New(params) }, MaxDepth: c.Depth,
-				Shard: sh, Expired: expired, Iterative: true}, sub)
-			// completion bookkeeping (the parent needs "every worker finished its share of it")
-			if !sub.TimedOut {
-				p.Add("done:"+c.Name, 1)
-			}
-			for d := int64(1); d <= sub.Counters["max_completed_depth"]; d++ {
-				p.Add(fmt.Sprintf("depth_done:%s:%d", c.Name, d), 1)
-			}
-			delete(sub.Counters, "max_completed_depth")
-			// tag violations with the configuration so replays know which one to use
-			for i := range sub.Violations {
-				sub.Violations[i].Replay = fmt.Sprintf(`{"Config":%q,"Path":%s}`, c.Name, sub.Violations[i].Replay)
-				sub.Violations[i].Desc = "config=" + c.Name + " " + sub.Violations[i].Desc
-			}
-			p.Merge(sub)
+			}})
 		}
+		schedmc.ExploreAll(r, p, items)
 		for k, v := range kvseq.OpCount {
 			p.Add("op:"+k, v)
 		}
@@ -127,18 +104,28 @@ func main() {
 	// which configurations were enumerated completely; for the iteratively deepened ones the
 	// deepest depth bound that every worker completed
 	completion := map[string]string{}
-	nw := total.Counters["workers"]
+	nw := int(total.Counters["workers"])
+	done := map[string]bool{}
+	var cfgNames []string
 	for _, c := range cfgs {
-		switch {
-		case nw > 0 && total.Counters["done:"+c.Name] == nw:
+		cfgNames = append(cfgNames, c.Name)
+	}
+	for _, n := range schedmc.Completed(total, cfgNames) {
+		done[n] = true
+	}
+	for _, c := range cfgs {
+		if done[c.Name] {
 			completion[c.Name] = fmt.Sprintf("complete (depth<=%d)", c.Depth)
-		default:
-			d := 0
-			for nw > 0 && total.Counters[fmt.Sprintf("depth_done:%s:%d", c.Name, d+1)] == nw {
-				d++
-			}
-			completion[c.Name] = fmt.Sprintf("budget hit; complete up to depth %d of %d", d, c.Depth)
+			continue
 		}
+		// the deepest depth bound that every worker completed (in either pass)
+		d := int64(c.Depth)
+		for w := 0; w < nw; w++ {
+			if v := total.Counters[fmt.Sprintf("max_depth_done_%02d_%s", w, c.Name)]; v < d {
+				d = v
+			}
+		}
+		completion[c.Name] = fmt.Sprintf("budget hit; complete up to depth %d of %d", d, c.Depth)
 	}
 	r.Finish(vr.Coverage{
 		Level:       "model_checking",
@@ -149,7 +136,7 @@ func main() {
 		States:      states,
 		Transitions: total.Counters["transitions"],
 		Validated:   total.Counters["executions"],
-		Exhaustive:  !total.TimedOut,
+		Exhaustive:  len(done) == len(cfgs),
 		Outcomes:    states,
 		Bounds:      map[string]any{"configs": names(cfgs), "quick": r.Quick(), "completion": completion},
 		Extra: map[string]any{"pruned_by_state_key": total.Counters["pruned"], "noop_cut": total.Counters["cut_noop"],
